@@ -125,7 +125,7 @@ theorem marks_foldl_gen {α : Type} (g : ScanSt → α → ScanSt) (hg : ∀ s x
 directory state -/
 theorem openInst_marks (c : Cfg) (p : Proc) (dir : Nat) (mode : Mode) :
     ∃ i', (openInst c p dir mode).inst = some i' ∧
-      i'.marks = (dir, ((p.dirs.get? dir).getD {}).markers, []) ∧ (openInst c p dir mode).dirs = p.dirs := by
+      i'.marks = (dir, ((p.dirs.get? dir).getD {}).markers, []) ∧ (openInst c p dir mode).side = p.side := by
   unfold openInst
   simp only
   refine ⟨_, rfl, ?_, rfl⟩
@@ -148,7 +148,8 @@ theorem minv_open (c : Cfg) (p : Proc) (mode : Mode) (e : Topic → Bool) (hn : 
   refine ⟨hm.1, ?_⟩
   intro t
   have hr : reported i' t = dirReported p t := by unfold reported dirReported; rw [hm.2.1]
-  have hd2 : dirReported (openInst c p 0 mode) t = dirReported p t := by unfold dirReported; rw [hd]
+  have hd2 : dirReported (openInst c p 0 mode) t = dirReported p t := by
+    unfold dirReported; rw [show (openInst c p 0 mode).dirs = p.dirs from congrArg (·.1) hd]
   exact ⟨by rw [hr]; exact h t, fun _ => by rw [hd2]; exact h t⟩
 
 /-- any operation that leaves the marker part of the instance and the directories alone keeps the invariant -/
